@@ -105,6 +105,8 @@ def main():
             sc.inject()
             if any("loom" in h.get("cfg", "") for h in hs):
                 sc.add_loom_shim()
+                # one RUSTFLAGS set per scratch build: the canary rides along under cfg(loom)
+                hs = [dict(h, cfg=h["cfg"] or "loom", features=h["features"] or "loom") for h in hs]
             src_hash, injected = sc.src_hash, sc.injected
             # one scratch per cfg would rebuild dependencies; RUSTFLAGS changes do that anyway, cargo
             # keeps the variants apart by fingerprint
